@@ -5,7 +5,9 @@ use bytecode::FFIReturnValue;
 
 #[cfg(feature = "tag_b")]
 const TAG: &str = "B";
-#[cfg(not(feature = "tag_b"))]
+#[cfg(feature = "lazy_dep")]
+const TAG: &str = "L";
+#[cfg(not(any(feature = "tag_b", feature = "lazy_dep")))]
 const TAG: &str = "A";
 
 fn describe(args: &[P]) -> String {
@@ -70,4 +72,37 @@ pub fn probe_last(args: &[P]) -> FFIReturnValue {
         Some(x) => FFIReturnValue::Value(x.clone()),
         None => FFIReturnValue::FFIError("probe_last: no arguments".to_owned()),
     }
+}
+
+// Symbol names around the 64-character mark: a 63-character name, two longer names that extend it, (and, in the
+// simulation, a 64-character name that is NOT exported although its 63-character prefix is).
+#[no_mangle]
+pub fn probe_long_xxxxxxxxxxxxxxxxxxxxxxxxxxxxxxxxxxxxxxxxxxxxxxxxxxxx(args: &[P]) -> FFIReturnValue {
+    FFIReturnValue::Value(P::Str(format!("long63 {}", describe(args))))
+}
+
+#[no_mangle]
+pub fn probe_long_xxxxxxxxxxxxxxxxxxxxxxxxxxxxxxxxxxxxxxxxxxxxxxxxxxxxyyyyyyy(args: &[P]) -> FFIReturnValue {
+    FFIReturnValue::Value(P::Str(format!("long70 {}", describe(args))))
+}
+
+#[no_mangle]
+pub fn probe_long_xxxxxxxxxxxxxxxxxxxxxxxxxxxxxxxxxxxxxxxxxxxxxxxxxxxxzzzzzzzz(args: &[P]) -> FFIReturnValue {
+    FFIReturnValue::Value(P::Str(format!("long71 {}", describe(args))))
+}
+
+// Variant "lazy": the library carries one lazily bound reference to an optional helper that is not installed;
+// only probe_accel would ever reach it.
+#[cfg(feature = "lazy_dep")]
+extern "C" {
+    fn probe_stub_trampoline(a: i32, b: i32) -> i32;
+}
+
+#[cfg(feature = "lazy_dep")]
+#[no_mangle]
+pub fn probe_accel(args: &[P]) -> FFIReturnValue {
+    let (Some(P::Int(x)), Some(P::Int(y))) = (args.first(), args.get(1)) else {
+        return FFIReturnValue::FFIError("probe_accel needs two ints".to_string());
+    };
+    FFIReturnValue::Value(P::Int(unsafe { probe_stub_trampoline(*x, *y) }))
 }
